@@ -130,6 +130,16 @@ CHECKS = {
         "weight-3 patterns and patterns that clear the check field; TLC judges each outcome.",
         "Corruption patterns beyond single/double bit errors are sampled; field equality excludes the check fields themselves; five open findings (all-zero check field convention).",
     ),
+    "C03": (
+        "DESIGN.md 5/C03",
+        "TLC: layout catalogue well-formedness + design round trip + enumeration of the case analysis (PDULayouts.tla) -> every case built with the real PDU classes -> TLC judges round trips, arbitrary bit strings and all element values",
+        "46 field layouts are specified in TLA+; TLC checks them (widths, disjoint fields, Dec(Enc v) = v) and enumerates layout x field x "
+        "boundary value / enumeration member; the harness builds each case and dense random cases (GPS coordinates: tens of thousands of raw "
+        "values) with the real classes, serialises, parses, re-serialises; arbitrary right-length bit strings are decoded (documented error or "
+        "fixed point); all 2^w values of 30 element enumerations are mapped; TLC judges everything and compares serialised bits with the "
+        "layouts (drift).",
+        "Field values beyond boundaries are sampled; adapters map layout fields to constructor keywords (trusted, small); which member an undefined element value folds to is not judged.",
+    ),
 }
 
 NOT_YET = {}
